@@ -83,7 +83,7 @@ def encode_value(v: Val):
 def build(rng, tree: dict, *, ntables: int = 1, seqs=(3, 7), stale_tables: int = 0, free_prob: float = 0.15, table_order: str = "shuffle",
           extra_object_tables: int = 0, alignment: int = 0x1000, trailer_mode: str = "12", version: int = 0x400, replay_entries: int = 0,
           stale_same_layout: bool = True, first_table_pages: int = 1, pad_objects: int = 0,
-          inactive_slot: str = "valid", emptied_tables: int = 0, backward_chain: bool = False):
+          inactive_slot: str = "valid", emptied_tables: int = 0, backward_chain: bool = False, released_object_table: bool = False):
     # first_table_pages: room reserved for the first object table at 0x2000 (its length is given by its entry count, not by
     # a fixed page); pad_objects: that many additional unallocated entries, so that a single table can exceed one page
     """Serialise `tree` ({key: Val | dict}) into a HyperVStorage file. -> (bytes, meta)"""
@@ -234,6 +234,23 @@ def build(rng, tree: dict, *, ntables: int = 1, seqs=(3, 7), stale_tables: int =
             soff = alloc(ssize)
             table_blobs.append((soff, bytes(sb).ljust(ssize, b"\0")))
             objs.append((O_KEYTABLE, soff, ssize, 1))
+    if released_object_table:
+        # a released (unallocated) object-table entry that still carries its type and points at what used to be a valid object
+        # table, listing outdated key tables (one of them with a higher sequence number than the live table of that index)
+        gblobs = []
+        for gidx, gseq in ((1, 65000), (ntables + 40, 5)):
+            sb = bytearray(struct.pack("<HHHI", SIG_KEYTABLE, gidx, gseq, 0))
+            sb += entry(T_NODE, 0, 0, 0, b"RELEASED", b"\0" * 12, trailer=0)
+            sb += entry(T_INT, 0, gidx, 10, b"released-child", struct.pack("<q", -7))
+            gsize = -(-len(sb) // alignment) * alignment
+            goff = alloc(gsize)
+            table_blobs.append((goff, bytes(sb).ljust(gsize, b"\0")))
+            gblobs.append((O_KEYTABLE, goff, gsize, 1))
+        rt = struct.pack("<II", SIG_OBJTABLE, len(gblobs)) + b"".join(struct.pack("<BIQIB", t, 0, o, s, a) for t, o, s, a in gblobs)
+        rsize = -(-len(rt) // alignment) * alignment
+        roff = alloc(rsize)
+        table_blobs.append((roff, rt.ljust(rsize, b"\0")))
+        objs.append((O_OBJTABLE, roff, rsize, 0))
     # unallocated / free object entries
     for _ in range(rng.randrange(0, 4)):
         objs.append((rng.choice([O_FREE, 0, O_KEYTABLE, O_FILE]), rng.randrange(0x3000, 0x9000) & ~0xFFF, 0x1000, 0))
@@ -301,6 +318,6 @@ def build(rng, tree: dict, *, ntables: int = 1, seqs=(3, 7), stale_tables: int =
         b = objtable(moved)
         out[eoff : eoff + len(b)] = b
     meta = {"tables": ntables, "entries": len(flat), "file_objects": len(files), "object_entries": len(objs), "extra_object_tables": len(extra_tabs),
-            "replay_off": replay_off, "table_offsets": [o for o, _ in table_blobs], "seq_of": seq_of, "size": total,
+            "replay_off": replay_off, "table_offsets": [o for o, _ in table_blobs][: len(layouts) * 1000], "seq_of": seq_of, "size": total,
             "extra_table_offsets": [o for o, _ in extra_tabs], "backward_chain": bool(backward_chain and len(extra_tabs) >= 2)}
     return bytes(out), meta
